@@ -555,6 +555,104 @@ func c13DoubleClose(c *vf.Case, ioc *sonic.IO) {
 	}
 }
 
+// c13CloseInsideOwnCallback: a timer is closed from inside its own callback (one-shot and repeating), and before that
+// callback returns another timer is created, which receives the descriptor number just released. Whatever the library
+// does after the callback returns (re-arming the series) and a later, repeated Close of the first timer must leave
+// the second timer's descriptor alone: it stays open and the second timer still fires.
+func c13CloseInsideOwnCallback(c *vf.Case, ioc *sonic.IO) {
+	for _, repeating := range []bool{false, true} {
+		for _, scheduleU := range []bool{false, true} {
+			if c.Failed() {
+				return
+			}
+			name := map[bool]string{false: "one-shot", true: "repeating"}[repeating]
+			before := rawpeer.TakeCensus()
+			T, err := sonic.NewTimer(ioc)
+			if err != nil {
+				c.Failf("harness-setup", "NewTimer: %v", err)
+				return
+			}
+			var U *sonic.Timer
+			var withU rawpeer.Census
+			ticks, uFired, tAfterClose := 0, 0, 0
+			cb := func() {
+				ticks++
+				if ticks > 1 {
+					tAfterClose++
+					return
+				}
+				_ = T.Close()
+				U, err = sonic.NewTimer(ioc)
+				if err == nil && scheduleU {
+					_ = U.ScheduleOnce(30*time.Millisecond, func() { uFired++ })
+				}
+				withU = rawpeer.TakeCensus()
+			}
+			if repeating {
+				err = T.ScheduleRepeating(2*time.Millisecond, cb)
+			} else {
+				err = T.ScheduleOnce(2*time.Millisecond, cb)
+			}
+			if err != nil {
+				c.Failf("harness-setup", "schedule: %v", err)
+				return
+			}
+			deadline := time.Now().Add(3 * time.Second)
+			for ticks == 0 && time.Now().Before(deadline) {
+				_, _ = ioc.PollOne()
+			}
+			if ticks == 0 || U == nil {
+				c.Logf("close-inside-own-callback/%s: the timer did not fire within 3 s (or NewTimer failed: %v): probe skipped", name, err)
+				c.Count("close_inside_own_callback_probes_skipped", 1)
+				_ = T.Close()
+				if U != nil {
+					_ = U.Close()
+				}
+				continue
+			}
+			for i := 0; i < 5; i++ {
+				_, _ = ioc.PollOne()
+			}
+			err2 := T.Close() // the repeated Close of a timer that closed itself inside its callback
+			after := rawpeer.TakeCensus()
+			_, closed := withU.Diff(after)
+			c.Logf("close-inside-own-callback/%s (second timer scheduled: %v): second Close -> %v; descriptors gone since the callback: %v; Scheduled()=%v", name, scheduleU, err2, closed, T.Scheduled())
+			c.Count("close_inside_own_callback_probes", 1)
+			if len(closed) > 0 {
+				c.Failf("second-close-closed-a-foreign-descriptor/timer-closed-in-own-callback", "a %s timer closed itself inside its callback, a second timer was created before the callback returned; closing the first timer again closed descriptors it no longer owns: %v", name, closed)
+				return
+			}
+			if T.Scheduled() {
+				c.Failf("closed-timer-revived/closed-in-own-callback", "a %s timer closed itself inside its callback and reports Scheduled()=true afterwards", name)
+				return
+			}
+			// the second timer still works
+			fired := 0
+			if scheduleU {
+				fired = -1 // its 30 ms schedule from inside the callback is still due or has run
+			} else if err := U.ScheduleOnce(time.Millisecond, func() { uFired++ }); err != nil {
+				c.Failf("second-timer-broken-after-first-closed-in-own-callback", "ScheduleOnce on the second timer: %v", err)
+				return
+			}
+			_ = fired
+			deadline = time.Now().Add(3 * time.Second)
+			for uFired == 0 && time.Now().Before(deadline) {
+				_, _ = ioc.PollOne()
+			}
+			if uFired != 1 {
+				c.Failf("second-timer-broken-after-first-closed-in-own-callback", "the second timer's callback ran %d times within 3 s (first timer: %s, closed inside its own callback and once more afterwards)", uFired, name)
+				return
+			}
+			if tAfterClose > 0 {
+				c.Failf("callback-after-close/timer-closed-in-own-callback", "the callback of the %s timer ran %d more times after the timer closed itself", name, tAfterClose)
+				return
+			}
+			_ = U.Close()
+			censusDiff(c, "Close/timer-closed-in-own-callback", "after closing both timers", before)
+		}
+	}
+}
+
 // c13AdapterOwnership: an AsyncAdapter wraps a net.Conn that owns the descriptor. Closing the adapter and then
 // the connection (what a websocket user does with NextLayer().Close() and CloseNextLayer()) must not close the
 // descriptor number twice.
@@ -1365,6 +1463,9 @@ func runC13(c *vf.Case) {
 		}
 		if !c.Failed() {
 			c13DoubleCloseThenGC(c, ioc)
+		}
+		if !c.Failed() {
+			c13CloseInsideOwnCallback(c, ioc)
 		}
 		c.NonTrivial(fmt.Sprintf("double-close/%d", c.Index))
 	default:
